@@ -17,6 +17,16 @@ json.dump(p,open(f'{ROOT}/{ID}_out/property.json','w'),indent=1)
 t=open('/verif/tools/seed_prompt_template.txt').read()
 t=t.replace('/tmp/seed2',ROOT).replace('@ID@',ID).replace('@TITLE@',p.get('title',''))
 t=t.replace('demo3.py',f'demo{N1}.py').replace('demo4.py',f'demo{N2}.py').replace('change3.diff',f'change{N1}.diff').replace('change4.diff',f'change{N2}.diff')
+# earlier rounds' changes (from the tables in DESIGN.md): ask for different mechanisms
+import re
+tried=[]
+for line in open('/verif/DESIGN.md'):
+    m=re.match(r'\|\s*(C\d\d)-\d+(?:,\s*(C\d\d)-\d+)?\s*\|\s*([^|]+)\|',line)
+    if m and m.group(1)==ID: tried.append(m.group(3).strip())
+if tried:
+    t+=("\n\nEarlier rounds already produced the following changes for this property. Do NOT repeat them or close "
+        "variants of them; look for different mechanisms, other code paths and other clauses of the property:\n"
+        + "".join(f" - {x}\n" for x in tried))
 open(f'{ROOT}/{ID}_out/TASK.md','w').write(t)
 PY
 done
